@@ -179,6 +179,9 @@ theorem listsAtomic_ofOptBiotype (s : Option Str) : listsAtomic (ofOptBiotype s)
 theorem listsAtomic_ofInts (l : List Int) : listsAtomic (ofInts l) = true := by
   simp only [ofInts, listsAtomic, all_atomic_ints]
 
+theorem listsAtomic_spanVal (lo hi : Int) (fr : Frame) : listsAtomic (spanVal lo hi fr) = true := by
+  unfold spanVal; split <;> rfl
+
 theorem tx_args_atomic (t : TxArgs) : (txDigestArgs md5 t).all listsAtomic = true := by
   unfold txDigestArgs
   simp only [List.all_cons, List.all_nil, listsAtomic_ofInts, listsAtomic_ofStrand, listsAtomic_quals,
@@ -202,7 +205,7 @@ theorem var_args_atomic (v : VarArgs) : (varDigestArgs v).all listsAtomic = true
   simp only [List.all_cons, List.all_nil, listsAtomic_quals, listsAtomic_ofOptStr, listsAtomic_ofOptInt,
     listsAtomic_ofOptUuid, listsAtomic, ofSequence, Bool.and_true, Bool.true_and]
 
-theorem gene_args_atomic (g : GeneArgs) (cs : Int) (args : List PyVal) (h : geneDigestArgs md5 g cs = some args) :
+theorem gene_args_atomic (g : GeneArgs) (cs : Frame) (args : List PyVal) (h : geneDigestArgs md5 g cs = some args) :
     args.all listsAtomic = true := by
   unfold geneDigestArgs at h
   cases hs : spanOf (g.transcripts.map TxArgs.bounds) with
@@ -212,9 +215,9 @@ theorem gene_args_atomic (g : GeneArgs) (cs : Int) (args : List PyVal) (h : gene
     simp only [Option.map_some, Option.some.injEq] at h
     subst h
     simp only [List.all_cons, List.all_nil, listsAtomic_quals, listsAtomic_ofOptStr, listsAtomic_ofOptBiotype,
-      listsAtomic, spanVal, ofSpan, all_atomic_uuids, Bool.and_true, Bool.true_and]
+      listsAtomic, listsAtomic_spanVal, all_atomic_uuids, Bool.and_true, Bool.true_and]
 
-theorem fc_args_atomic (c : FcArgs) (cs : Int) (args : List PyVal) (h : fcDigestArgs md5 c cs = some args) :
+theorem fc_args_atomic (c : FcArgs) (cs : Frame) (args : List PyVal) (h : fcDigestArgs md5 c cs = some args) :
     args.all listsAtomic = true := by
   unfold fcDigestArgs at h
   cases hs : spanOf (c.features.map FeatArgs.bounds) with
@@ -224,9 +227,9 @@ theorem fc_args_atomic (c : FcArgs) (cs : Int) (args : List PyVal) (h : fcDigest
     simp only [Option.map_some, Option.some.injEq] at h
     subst h
     simp only [List.all_cons, List.all_nil, listsAtomic_quals, listsAtomic_ofOptStr,
-      listsAtomic, spanVal, ofSpan, all_atomic_uuids, all_atomic_strs, Bool.and_true, Bool.true_and]
+      listsAtomic, listsAtomic_spanVal, all_atomic_uuids, all_atomic_strs, Bool.and_true, Bool.true_and]
 
-theorem vc_args_atomic (c : VcArgs) (cs : Int) (args : List PyVal) (h : vcDigestArgs md5 c cs = some args) :
+theorem vc_args_atomic (c : VcArgs) (cs : Frame) (args : List PyVal) (h : vcDigestArgs md5 c cs = some args) :
     args.all listsAtomic = true := by
   unfold vcDigestArgs at h
   cases hs : spanOf (c.variants.map fun v => (some v.start, some v.stop)) with
@@ -236,6 +239,6 @@ theorem vc_args_atomic (c : VcArgs) (cs : Int) (args : List PyVal) (h : vcDigest
     simp only [Option.map_some, Option.some.injEq] at h
     subst h
     simp only [List.all_cons, List.all_nil, listsAtomic_quals, listsAtomic_ofOptStr,
-      listsAtomic, spanVal, ofSpan, all_atomic_uuids, Bool.and_true, Bool.true_and]
+      listsAtomic, listsAtomic_spanVal, all_atomic_uuids, Bool.and_true, Bool.true_and]
 
 end BioCantor.Proofs.Dig
